@@ -1,4 +1,5 @@
 import OnetVerif.Model.Util
+import OnetVerif.Model.C03Sha1
 import OnetVerif.Generated
 /-! Model for property C03 — wire integrity (core-only: no Mathlib import, so the driver links).
 
@@ -254,6 +255,142 @@ def lrun (cap : Nat) : LQ → List LAct → LQ × List (List Nat)
       let r := lrun cap s' l
       (r.1, (match a with | .send b => [b] | _ => []) ++ r.2)
 
+/-! ### the type registry and the envelope
+
+`RegisterMessage` / `computeMessageType` / `MessageType` / `registry.get|put` (encoding.go:85-127,
+201-229): the 16-byte id of a message type is the version-5 UUID of
+`NamespaceBodyType + reflect.Type.String()`; the registry maps ids to Go types, a later `put` of the
+same id replaces the earlier entry.  `reflect.Type.String()` is *not* unique among types (package
+name, not path; types declared inside functions), so a Go type is modelled by its name **and** an
+identity. -/
+
+structure GoType where
+  /-- `reflect.Type.String()`, as bytes -/
+  name : List Nat
+  /-- identity of the `reflect.Type` -/
+  uid : Nat
+  deriving DecidableEq, Repr
+
+/-- `NamespaceBodyType` = `"https://dedis.epfl.ch/" + "/protocolType/"` (encoding.go:75-78) -/
+def namespaceBodyType : List Nat := [104, 116, 116, 112, 115, 58, 47, 47, 100, 101, 100, 105, 115, 46, 101, 112, 102, 108, 46, 99, 104, 47, 47, 112, 114, 111, 116, 111, 99, 111, 108, 84, 121, 112, 101, 47]
+
+/-- `computeMessageType` (encoding.go:108-116) -/
+def typeIdOf (t : GoType) : List Nat :=
+  Sha1.uuid5 Sha1.nameSpaceURL (namespaceBodyType ++ t.name)
+
+/-- `typeRegistry.types`, newest entry first -/
+abbrev Registry := List (List Nat × GoType)
+
+/-- `registry.get` (encoding.go:217-222) -/
+def Registry.get (r : Registry) (id : List Nat) : Option GoType := (r.find? (fun e => e.1 == id)).map (·.2)
+
+/-- `registry.put` (encoding.go:225-229): `tr.types[mid] = typ` -/
+def Registry.put (r : Registry) (id : List Nat) (t : GoType) : Registry := (id, t) :: r
+
+/-- `RegisterMessage` (encoding.go:85-94) -/
+def registerMessage (r : Registry) (t : GoType) : Registry × List Nat :=
+  (r.put (typeIdOf t) t, typeIdOf t)
+
+/-- a whole history of registrations -/
+def registerAll (r : Registry) (ts : List GoType) : Registry := ts.foldl (fun r t => (registerMessage r t).1) r
+
+/-- `ErrorType` = `uuid.Nil` (encoding.go:50) -/
+def errorType : List Nat := List.replicate 16 0
+
+/-- `MessageType` (encoding.go:120-127): the id if *some* type is registered under it -/
+def messageType (r : Registry) (t : GoType) : List Nat :=
+  if (r.get (typeIdOf t)).isSome then typeIdOf t else errorType
+
+/-- the protobuf codec, typed: what `protobuf.Encode` / `DecodeWithConstructors` do for values of a
+Go type (the registry is not its business) -/
+structure TCodec (V : Type) where
+  typeOf : V → GoType
+  /-- `protobuf.Encode` accepts the value -/
+  encodable : V → Bool
+  enc : V → List Nat
+  /-- decode into `reflect.New(typ)` -/
+  dec : GoType → List Nat → Option V
+
+structure TCodec.Sound {V : Type} (tc : TCodec V) : Prop where
+  roundtrip : ∀ v, tc.encodable v = true → tc.dec (tc.typeOf v) (tc.enc v) = some v
+
+/-- `Marshal` / `Unmarshal` over a registry: the untyped `Codec` the framing theorems talk about -/
+def codecOf {V : Type} (r : Registry) (tc : TCodec V) : Codec V where
+  tyOf v := typeIdOf (tc.typeOf v)
+  sendable v := (r.get (typeIdOf (tc.typeOf v))).isSome && tc.encodable v
+  enc := tc.enc
+  registered id := (r.get id).isSome
+  dec id b := match r.get id with
+    | some t => tc.dec t b
+    | none => none
+
+/-- what the receive loop hands to the dispatcher (struct.go `Envelope`; tcp.go:124-128,
+local.go:306-310, router.go:504) -/
+structure Envelope (V : Type) where
+  /-- `ServerIdentity`: the peer of the connection (`packet.ServerIdentity = remote`) -/
+  sender : Nat
+  msgType : List Nat
+  msg : V
+  /-- `Size(len(buff))` -/
+  size : Nat
+  deriving DecidableEq, Repr
+
+/-- one turn of `handleConn` with the envelope in view -/
+inductive EnvEvent (V : Type) where
+  /-- `Dispatch` found the processor registered for `MsgType` (dispatch.go:84-97) -/
+  | processed (e : Envelope V)
+  /-- "No Processor attached to this message type": logged, the message is dropped -/
+  | noProcessor (e : Envelope V)
+  | refused (e : RecvErr)
+  | closed (e : RecvErr)
+  deriving DecidableEq, Repr
+
+def EnvEvent.erase {V : Type} : EnvEvent V → Event V
+  | .processed e => .deliver e.msg
+  | .noProcessor e => .deliver e.msg
+  | .refused e => .refused e
+  | .closed e => .closed e
+
+/-- what the loop does with one received buffer, envelope in view; `procs` = the type ids a
+processor is registered for -/
+def classifyEnv {V : Type} (cd : Codec V) (remote : Nat) (procs : List (List Nat)) (b : List Nat) : EnvEvent V :=
+  match unmarshal cd b with
+  | .ok v =>
+    let env : Envelope V := { sender := remote, msgType := b.take 16, msg := v, size := b.length }
+    if procs.contains env.msgType then .processed env else .noProcessor env
+  | .error e => if fatal (sentinelOf e) then .closed e else .refused e
+
+def EnvEvent.isClosed {V : Type} : EnvEvent V → Bool
+  | .closed _ => true
+  | _ => false
+
+/-- `handleConn` with the envelope in view -/
+def recvEnvLoop {V : Type} (cd : Codec V) (max remote : Nat) (procs : List (List Nat)) :
+    Nat → Segs → List (EnvEvent V)
+  | 0, _ => []
+  | fuel + 1, c =>
+    match recvFrame max c with
+    | (.error e, _) => [if fatal (sentinelOf e) then .closed e else .refused e]
+    | (.ok b, c') =>
+      let ev := classifyEnv cd remote procs b
+      if ev.isClosed then [ev] else ev :: recvEnvLoop cd max remote procs fuel c'
+
+/-- `Router.Send` to the router's own identity (router.go:316-337): no connection, no marshalling
+on the way — the envelope is built from the value and dispatched at once; the value is marshalled
+afterwards, only to count its bytes.  Returns the envelopes dispatched and whether `Send` reported
+success. -/
+def selfSend {V : Type} (r : Registry) (tc : TCodec V) (self : Nat) (procs : List (List Nat)) :
+    List V → List (Envelope V) × Bool
+  | [] => ([], true)
+  | v :: l =>
+    let env : Envelope V := { sender := self, msgType := messageType r (tc.typeOf v), msg := v, size := 0 }
+    if procs.contains env.msgType then
+      if (codecOf r tc).sendable v then
+        let rest := selfSend r tc self procs l
+        (env :: rest.1, rest.2)
+      else ([env], false)          -- dispatched, then "marshaling: …"
+    else ([], false)               -- "Error dispatching: …"
+
 /-! ### the sending side
 
 `TCPConn.Send` (tcp.go:192-205) and `sendRaw` (tcp.go:210-243): the length prefix through one
@@ -478,9 +615,9 @@ namespace Drv
 /-- the driver's codec: a value *is* its marshalled buffer; the registry and the set of buffers
 the protobuf decoder refuses are tables supplied by the harness (the codec is a parameter of the
 model — the tables instantiate it with what the real codec did on this run). -/
-def tableCodec (reg bad : List (List Nat)) : Codec (List Nat) where
+def tableCodec (reg bad : List (List Nat)) (unenc : List (List Nat) := []) : Codec (List Nat) where
   tyOf v := v.take 16
-  sendable v := decide (16 ≤ v.length) && reg.contains (v.take 16)
+  sendable v := decide (16 ≤ v.length) && reg.contains (v.take 16) && !unenc.contains (v.take 16)
   enc v := v.drop 16
   registered t := reg.contains t
   dec t b := if bad.contains (t ++ b) then none else some (t ++ b)
@@ -489,6 +626,23 @@ structure State where
   max : Nat := Generated.maxPacketSize
   reg : List (List Nat) := []
   bad : List (List Nat) := []
+  /-- registered types whose values `protobuf.Encode` refuses (a `chan` field) -/
+  unenc : List (List Nat) := []
+  /-- the registry as built by `reg` operations (names and identities of the Go types) -/
+  registry : Registry := []
+  /-- the type ids a processor is registered for in the receiving router; `none` = all registered -/
+  procs : Option (List (List Nat)) := none
+
+/-- the typed codec of the driver over the registry built by `reg`: a value is its marshalled
+buffer, its Go type the one registered under its first 16 bytes -/
+def tableTCodec (registry : Registry) (bad unenc : List (List Nat)) : TCodec (List Nat) where
+  typeOf v := (registry.get (v.take 16)).getD ⟨[], 0⟩
+  encodable v := decide (16 ≤ v.length) && !unenc.contains (v.take 16)
+  enc v := v.drop 16
+  dec t b := if bad.contains (typeIdOf t ++ b) then none else some (typeIdOf t ++ b)
+
+def showEnvelope (e : Envelope (List Nat)) : String :=
+  "d:" ++ Util.hex e.msgType ++ ":" ++ Util.hex e.msg
 
 def init : State := {}
 
@@ -514,6 +668,20 @@ def showEvent : Event (List Nat) → String
 
 def showEvents (l : List (Event (List Nat))) : String :=
   if l.isEmpty then "-" else ",".intercalate (l.map showEvent)
+
+def showEnvEvent : EnvEvent (List Nat) → String
+  | .processed e => "d:" ++ Util.hex e.msg
+  | .noProcessor e => "np:" ++ Util.hex e.msg
+  | .refused e => "x:" ++ showErr e
+  | .closed e => "end:" ++ showErr e
+
+def showEnvEvents (l : List (EnvEvent (List Nat))) : String :=
+  if l.isEmpty then "-" else ",".intercalate (l.map showEnvEvent)
+
+def stalledEnv (l : List (EnvEvent (List Nat))) : List (EnvEvent (List Nat)) :=
+  l.map fun
+    | .closed .eof => .closed .timeout
+    | e => e
 
 /-- for `send`, the harness sees *that* the receiving router dropped the connection, not why -/
 def showLive (l : List (Event (List Nat))) : String :=
@@ -584,6 +752,14 @@ def parseKind : String → Option Kind
 * `unm <buffer>` — `Unmarshal`
 * `loop <frames> <tail> <chunks>` — the same stream into `handleConn`; `<chunks>` may be
   `<sizes>~<sizes>`: the sender stalls after the bytes of the first list (see `stalled`)
+* `unenc <type ids>` — registered types whose values the protobuf encoder refuses
+* `procs <type ids|all>` — the types the receiving router has a processor for
+* `reg <type name> <identity>` — `RegisterMessage` of a Go type with that `reflect.Type.String()`: the id
+* `mtype <type name> <identity>` — `MessageType`
+* `rt <type name> <identity> <protobuf body>` — `Marshal` of such a value, then `Unmarshal`: the
+  identity of the type it comes back as
+* `self <buffers>` — `Router.Send` of these values to the router's own identity
+* `sendnil <tcp|local>` — `Router.Send` of a valid message and a nil one
 * `iface <unm|tcp> <connection suite|nil> <value suite> <point|scalar> <length> <seed>` — a message with
   one point/scalar of the value suite, marshalled and then unmarshalled with the connection's suite
   (directly, or sent and received over a pair of `TCPConn`s): `same` / `differs`
@@ -597,13 +773,57 @@ def parseKind : String → Option Kind
   the receiving router does with them
 -/
 def step (s : State) (toks : List String) : State × String :=
-  let cd := tableCodec s.reg s.bad
+  let cd := tableCodec s.reg s.bad s.unenc
+  let procs := s.procs.getD s.reg
   match toks with
   | ["cfg", m, reg, bad] =>
     let m? : Option Nat := if m = "gen" then some Generated.maxPacketSize else m.toNat?
     match m?, hexList reg, hexList bad with
-    | some m, some reg, some bad => ({ max := m, reg := reg, bad := bad }, "ok")
+    | some m, some reg, some bad =>
+      -- the process-wide type registry outlives a reconfiguration
+      ({ max := m, reg := reg, bad := bad, registry := s.registry }, "ok")
     | _, _, _ => (s, "bad-op")
+  | ["unenc", ids] =>
+    match hexList ids with
+    | some ids => ({ s with unenc := ids }, "ok")
+    | none => (s, "bad-op")
+  | ["procs", ids] =>
+    if ids = "all" then ({ s with procs := none }, "ok") else
+    match hexList ids with
+    | some ids => ({ s with procs := some ids }, "ok")
+    | none => (s, "bad-op")
+  | ["reg", name, uid] =>
+    match Util.unhex name, uid.toNat? with
+    | some name, some uid =>
+      let r := registerMessage s.registry ⟨name, uid⟩
+      ({ s with registry := r.1 }, Util.hex r.2)
+    | _, _ => (s, "bad-op")
+  | ["mtype", name, uid] =>
+    match Util.unhex name, uid.toNat? with
+    | some name, some uid =>
+      let id := messageType s.registry ⟨name, uid⟩
+      (s, if id = errorType then "unregistered" else Util.hex id)
+    | _, _ => (s, "bad-op")
+  | ["rt", name, uid, body] =>
+    -- `Marshal` of a value of that Go type with that protobuf body, then `Unmarshal`
+    match Util.unhex name, uid.toNat?, Util.unhex body with
+    | some name, some uid, some body =>
+      let id := messageType s.registry ⟨name, uid⟩
+      if id = errorType then (s, "err:marshal") else
+      match s.registry.get id with
+      | none => (s, "err:unknown")
+      | some t => (s, if s.bad.contains (id ++ body) then "err:decode" else "ok type=" ++ toString t.uid)
+    | _, _, _ => (s, "bad-op")
+  | ["self", bufs] =>
+    match hexList bufs with
+    | some bufs =>
+      let ps := s.procs.getD (s.registry.map (·.1))
+      let r := selfSend s.registry (tableTCodec s.registry s.bad s.unenc) 0 ps bufs
+      (s, (if r.2 then "ok" else "err") ++ " " ++
+        (if r.1.isEmpty then "-" else ",".intercalate (r.1.map showEnvelope)))
+    | none => (s, "bad-op")
+  | ["sendnil", tr] =>
+    if tr = "tcp" || tr = "local" then (s, "err:nil -") else (s, "bad-op")
   | ["raw", fr, tl, ch] =>
     match hexList fr, Util.unhex tl, Util.natList ch with
     | some fr, some tl, some ch =>
@@ -618,11 +838,14 @@ def step (s : State) (toks : List String) : State × String :=
     | none => (s, "bad-op")
   | ["loop", fr, tl, ch] =>
     match hexList fr, Util.unhex tl, parseChunks ch with
-    | some fr, some tl, some (ch, false) => (s, showEvents (recvAll cd s.max (cut (wire fr ++ tl) ch)))
+    | some fr, some tl, some (ch, false) =>
+      let c := cut (wire fr ++ tl) ch
+      (s, showEnvEvents (recvEnvLoop cd s.max 0 procs (inflight c + 1) c))
     | some fr, some tl, some (ch, true) =>
       -- only the bytes written before the stall ever reach the receive loop
       let seen := (wire fr ++ tl).take (ch.foldl (· + ·) 0)
-      (s, showEvents (stalled (recvAll cd s.max (cut seen ch))))
+      let c := cut seen ch
+      (s, showEnvEvents (stalledEnv (recvEnvLoop cd s.max 0 procs (inflight c + 1) c)))
     | _, _, _ => (s, "bad-op")
   | ["iface", _via, su, vs, kd, n, _seed] =>
     match parseSuite su, parseSuite vs, parseKind kd, n.toNat? with
@@ -653,7 +876,9 @@ def step (s : State) (toks : List String) : State × String :=
     match hexList bufs with
     | some bufs =>
       let (ok, all) := sendable cd bufs
-      let res := if all then "ok" else "err:marshal"
+      let res := if bufs.isEmpty then "err:empty" else if all then "ok"
+        else if ((bufs.drop ok.length).head?.map fun b => s.reg.contains (b.take 16)) == some true then "err:encode"
+        else "err:marshal"
       let kind := (tr.splitOn "/").headD ""
       if kind = "tcp" then (s, res ++ " " ++ showLive (live (recvAll cd s.max [wire ok])))
       else if kind = "local" then (s, res ++ " " ++ showLive ((localLoop cd ok).dropLast))
